@@ -1,37 +1,73 @@
+//! Deterministic simulator for arata-nvm/tablegen-lsp. See /verif/DESIGN.md.
+
+mod cases;
+mod driver;
 mod exec;
+mod gen;
+mod ide_layer;
+mod minimize;
+mod model;
+mod oracle;
 mod refmap;
 mod rng;
 mod scenario;
 mod sched;
 mod world;
 
-use scenario::*;
-use std::collections::BTreeMap;
+use std::path::PathBuf;
+
+fn env_u64(name: &str) -> Option<u64> {
+    std::env::var(name).ok().and_then(|s| s.trim().parse().ok())
+}
 
 fn main() {
-    let mut disk0 = BTreeMap::new();
-    disk0.insert("/w/b.td".to_string(), world::FileState::Text("class B;\n".into()));
-    let sc = Scenario {
-        profile: "live".into(),
-        knobs: Knobs { concurrency: std::env::var("K").ok().and_then(|k| k.parse().ok()).unwrap_or(4), out_capacity: None, max_chunks: 3, chunk_seed: 1, strategy: sched::Strategy::Random, include_dir: None },
-        disk0,
-        ops: vec![
-            Op::Open { path: "/w/a.td".into(), text: "include \"b.td\"\nclass A : B;\n".into() },
-            Op::Request { kind: ReqKind::Definition, path: "/w/a.td".into(), offset: 25 },
-            Op::Request { kind: ReqKind::Hover, path: "/w/a.td".into(), offset: 25 },
-            Op::Request { kind: ReqKind::DocumentSymbol, path: "/w/a.td".into(), offset: 25 },
-            Op::Change { path: "/w/a.td".into(), text: "include \"b.td\"\nclass A2 : B;\n".into() },
-        ],
-    };
-    let t0 = std::time::Instant::now();
-    let mut classes: BTreeMap<String, usize> = BTreeMap::new();
-    let n = 300;
-    for seed in 0..n {
-        let r = exec::execute_isolated(&sc, exec::Sched::Seed(seed));
-        *classes.entry(r.outcome.class().to_string()).or_default() += 1;
-        if seed < 3 || (r.outcome.class() != "completed" && classes[r.outcome.class()] <= 2) {
-            println!("seed {seed}: {:?} steps={} recv={} counters={:?}", r.outcome, r.steps, r.history.received.len(), r.counters);
+    let args: Vec<String> = std::env::args().collect();
+    let code = match args.get(1).map(|s| s.as_str()) {
+        Some("check") => {
+            let prop = args.get(2).cloned().unwrap_or_default();
+            let tier = args.get(3).cloned().or_else(|| std::env::var("VERIF_TIER").ok()).unwrap_or_else(|| "quick".into());
+            if !cases::PROPS.contains(&prop.as_str()) {
+                eprintln!("harness error: unknown property {prop:?} (claimed: {:?})", cases::PROPS);
+                std::process::exit(2);
+            }
+            let cfg = driver::CheckCfg {
+                runs: env_u64("VERIF_RUNS").unwrap_or_else(|| driver::default_runs(&prop, &tier)),
+                workers: env_u64("VERIF_WORKERS").unwrap_or(16),
+                verif_seed: env_u64("VERIF_SEED").unwrap_or(driver::DEFAULT_SEED),
+                min_budget_s: env_u64("VERIF_MIN_BUDGET").unwrap_or(60),
+                write_evidence: std::env::var("VERIF_NO_EVIDENCE").is_err(),
+                prop,
+                tier,
+            };
+            driver::check_main(cfg)
         }
-    }
-    println!("{classes:?} {:?}/run", t0.elapsed() / n as u32);
+        Some("worker") => {
+            driver::worker_main(&args[2..]);
+            0
+        }
+        Some("replay") => driver::replay_main(&PathBuf::from(args.get(2).cloned().unwrap_or_default())),
+        Some("determinism") => {
+            let prop = args.get(2).cloned().unwrap_or_default();
+            let n = args.get(3).and_then(|s| s.parse().ok()).unwrap_or(2000);
+            driver::determinism_main(&prop, n, env_u64("VERIF_SEED").unwrap_or(driver::DEFAULT_SEED))
+        }
+        Some("det-worker") => {
+            driver::det_worker_main(&args[2..]);
+            0
+        }
+        Some("show") => {
+            // print the case generated for (property, run index)
+            let prop = args.get(2).cloned().unwrap_or_default();
+            let idx: u64 = args.get(3).and_then(|s| s.parse().ok()).unwrap_or(0);
+            let seed = driver::run_seed(env_u64("VERIF_SEED").unwrap_or(driver::DEFAULT_SEED), &prop, idx);
+            let case = cases::gen_case(&prop, seed);
+            println!("{}", serde_json::to_string_pretty(&case).unwrap());
+            0
+        }
+        _ => {
+            eprintln!("usage: sim check <C07|C08|C09|C11|C12|C16> [quick|thorough] | replay <file> | determinism <prop> [n] | show <prop> <index>");
+            2
+        }
+    };
+    std::process::exit(code);
 }
